@@ -92,6 +92,7 @@ def run(ctx):
                 ctx.violation("%s: memory orderings %s differ from the table of theorem c03_ra_race_free_and_conserving; no failing execution found in the view model for them" % (kind, table),
                               {"obligation": "c03_ra_race_free_and_conserving is stated for ords_code only", "observed": table}, no_input=True)
     ctx.cov["observed_ordering_tables"] = ra_tables
+    import c03conn_part; c03conn_part.run_conn(ctx)
     if not proof_ok and not ctx.violations:
         ctx.violation("proof obligation no longer checks: %s" % ctx.broken, {"broken": ctx.broken}, no_input=True)
     ctx.assumptions = [
